@@ -444,6 +444,13 @@ class Unit:
     # ------------------------------------------------------------------------------------------
     def transform_body(self, body, c, key, meta, f):
         t = body
+        # --- hook calls with call-site contracts (see process_traits)
+        for hn in getattr(self, 'hookcall_names', []):
+            t2 = re.sub(r'(?:<\s*C\s*>|\bC)\s*::\s*%s\s*\(' % hn, 'crate::traits_hookcalls::call_%s::<C>(' % hn, t)
+            if t2 != t:
+                self.rule('E7.hook_call_routed')
+                meta['rules'].append('E7:call_' + hn)
+                t = t2
         # --- statement anchors are located on the pristine text and marked; the ghost text is spliced in at the very end
         anchors = []
         if c:
@@ -483,7 +490,7 @@ class Unit:
             entry = '\n'.join(c.entry)
         gen_c = re.search(r'\bC\b', (f.generics or '')) or True
         if self.cfg.get('auto_algebra', True) and not (c and c.nohints):
-            entry = 'proof { crate::vspec::use_algebra::<C>(); crate::vspec::use_id_order::<C>(); }\n' + entry
+            entry = 'broadcast use crate::vstdx::group_cow;\nproof { crate::vspec::use_algebra::<C>(); crate::vspec::use_id_order::<C>(); }\n' + entry
         if self.cfg.get('canary'):
             # vacuity guard (DESIGN 2.7): with this flag every verified function must FAIL
             entry = entry + '\nassert(false); /*@CANARY*/'
@@ -916,6 +923,9 @@ class Unit:
                                    % (repo_rel, tname, have, sorted(names)))
         hooks = []
         defaults = []
+        self.hookcalls = []
+        self.hookcall_names = [k.split(' :: ')[-1] for k, cc in self.contracts.items()
+                               if k.startswith(repo_rel + ' :: Ciphersuite :: ') and cc.call_ensures]
         skip = set(cfg.get('trait_required_in_prelude', ()))
         for sub in traits['Ciphersuite'][1]:
             if sub.kind != 'fn' or sub.name in skip:
@@ -950,6 +960,22 @@ class Unit:
                         parts.append('\n        /*@HCL %s|hook_ensures|%s|%d*/ (%s),' % (key, cl.name, cl.text.strip().count('\n'), cl.text.strip().rstrip(',')))
                 htext = ''.join(parts)
             hooks.append('    fn %s%s(%s)%s%s%s;' % (f.name, f.generics, f.params, ret, where, htext))
+            if c and c.call_ensures:
+                # hooks whose contract cannot be stated inside the trait (a `Cow<T>` result needs `T: Clone`, whose impl depends on the
+                # trait: cyclic): every call `<C>::hook(..)` in verified code is routed through this wrapper, whose body is exactly that
+                # call and whose `ensures` (the hook contract, phrased with the trait-level spec fn) is ASSUMED at the call site
+                subst2 = lambda t: re.sub(r'\bSelf\b', 'C', t)
+                gen3 = '<' + ', '.join([g.strip() for g in (f.generics[1:-1].split(',') if f.generics else []) if g.strip().startswith("'")] +
+                                       ['C: Ciphersuite'] + [g.strip() for g in (f.generics[1:-1].split(',') if f.generics else []) if g.strip() and not g.strip().startswith("'")]) + '>'
+                argnames = []
+                for prm in split_depth0(f.params, ',', angle=True):
+                    prm = prm.strip()
+                    if prm:
+                        argnames.append(re.sub(r'^mut\s+', '', prm.split(':')[0].strip()))
+                ens = ''.join('\n        /*@HCL %s|call_ensures|%s|%d*/ (%s),' % (key, cl.name, cl.text.strip().count('\n'), subst2(cl.text.strip().rstrip(','))) for cl in c.call_ensures)
+                self.hookcalls.append('#[verifier::external_body]\npub fn call_%s%s(%s)%s%s\n    ensures%s\n{ <C>::%s(%s) }'
+                                      % (f.name, gen3, subst2(f.params), subst2(ret), subst2(where), ens, f.name, ', '.join(argnames)))
+                self.rule('E7.hook_call_wrapper')
             # default body as a free function
             subst = lambda t: re.sub(r'\bSelf\b', 'C', t)
             gen = f.generics
@@ -979,7 +1005,12 @@ class Unit:
                 '#[allow(unused_imports)] use crate::keys::{KeyPackage, PublicKeyPackage, SecretShare, VerifyingShare};\n'
                 '#[allow(unused_imports)] use crate::round1::{self, SigningNonces};\n#[allow(unused_imports)] use crate::round2::{self, SignatureShare};\n'
                 'verus! {\n' + '\n'.join(defaults) + '\n} // verus!\n}\n')
-        return prelude + '\n' + dmod
+        hmod = ('pub mod traits_hookcalls {\n' + STD_USE + '\n#[allow(unused_imports)] use crate::*;\n#[allow(unused_imports)] use crate::traits::*;\n'
+                '#[allow(unused_imports)] use crate::keys::{KeyPackage, PublicKeyPackage, SecretShare, VerifyingShare};\n'
+                '#[allow(unused_imports)] use crate::round1::{self, SigningNonces};\n#[allow(unused_imports)] use crate::round2::{self, SignatureShare};\n'
+                'verus! {\n' + '\n'.join(self.hookcalls) + '\n} // verus!\n}\n')
+        self.pending_default_bodies = None
+        return prelude + '\n' + dmod + '\n' + hmod
 
     # ------------------------------------------------------------------------------------------
     def emit(self):
